@@ -5,7 +5,7 @@
 EXTENDS Cron_Sim, TLCExt
 CONSTANTS K, Goals
 
-GView == <<now, booted, api, cache, evq, addch, updch, heap, wq, retry, sync, jobs, jcache, jevq, ops, faults, restarts, uidc, lo, req, lastfired, reqs, ever>>
+GView == <<now, booted, api, cache, evq, addch, updch, heap, wq, retry, sync, jobs, jcache, jevq, ops, faults, restarts, uidc, lo, req, lastfired, reqs, ever, act>>
 GInit == SInit /\ \A i \in 1..6 : TLCSet(i, 0)
 GSpec == GInit /\ [][SNext]_svars
 
